@@ -9,6 +9,18 @@ G  every payload of <= N tokens over a 27-token alphabet x 5 contexts: real expa
    expand()/parse() of the written document == of TLC's stripped document.
 V  seeded random longer payloads over a wider alphabet are run on the real code and the
    recorded (context, payload, tokenised output) triples validated by TLC (Trace_Nowiki).
+N  NESTED contexts x expansion options (Nowiki.tla, second half): the nowiki sits under up to
+   Depth frames (link, external link, expanded / unselected template, parser function, #invoke,
+   constructs disabled by <nowiki/>, argument default, text, a sibling call) and expand() is
+   called with expand_parserfns / expand_invoke / pre_expand+templates_to_expand varied where a
+   frame looks at them.  TLC runs the model's own encode / expand_recurse / expand_args /
+   finalize over the frames and prints the required output; G: every context of the bounded
+   universe, V: random deeper ones with long payloads, judged by Trace_Nowiki.  A difference is
+   a VIOLATION only if it touches what the statement says (a placeholder character left in the
+   output, the quoted payload missing, a template call coming from the payload); a different
+   rendering of the frames is DRIFT.
+I  context-free invariant on every real expand() output of every phase: no character of the
+   placeholder range U+10203D..U+10FFF0 (the inputs have none).
 """
 from __future__ import annotations
 
@@ -133,6 +145,14 @@ def run_comment(chunk):
 
 
 ENT = re.compile(r"&#?[a-z0-9]+;")
+# the library's private-use range: <nowiki/> marker, bracket markers, stored-construct cookies
+CK = re.compile("[\U0010203D-\U0010FFF0]")
+
+
+def leak(s):
+    """first placeholder character in a real output (the inputs of this check have none)"""
+    m = CK.search(s) if isinstance(s, str) else None
+    return f"U+{ord(m.group(0)):X}" if m else None
 
 
 def tokenize(s):
@@ -146,7 +166,7 @@ def tokenize(s):
             i = m.end()
             continue
         ch = s[i]
-        out.append("SP" if ch == " " else "NL" if ch == "\n" else ch)
+        out.append("SP" if ch == " " else "NL" if ch == "\n" else "CK" if CK.match(ch) else ch)
         i += 1
     return out
 
@@ -158,6 +178,9 @@ def judge_nowiki(o, c, ob):
         o.violation({**case, "exception": ob["exc"]}, f"exception {ob['exc']}", cls="exception")
         return
     exp = text(c["expanded"])
+    for what, got in (("expand", ob["out"]), ("template body", ob.get("body_out"))):
+        if leak(got):
+            o.violation({**case, "got": got, "expected": exp}, f"{what} of {ob['src']!r} gives {got!r}: the internal placeholder character {leak(got)} is left in the output; nowiki content must come out as {exp!r}", cls="placeholder-" + c["ctx"])
     if ob["out"] != exp:
         o.violation({**case, "got": ob["out"], "expected": exp}, f"expand({ob['src']!r}) returned {ob['out']!r}; nowiki content must come out as {exp!r}", cls="expand-" + c["ctx"])
     if "body_out" in ob and ob["body_out"] != exp and ("<!--" in ob["src"] or "-->" in ob["src"]):
@@ -177,11 +200,198 @@ def judge_nowiki(o, c, ob):
     o.shape((c["ctx"], text(c["c"])))
 
 
+# ---------------------------------------------------------------- nested contexts x options
+DEFAULT_O = {"pfn": True, "inv": True, "sel": "all"}
+# written form of the frames for the random driver; Trace_Nowiki checks every written input
+# against the model's NInput, so a slip here is reported as machinery failure, not as a verdict
+FRAME_TEXT = {"text": ("p", "q"), "link": ("[[a|", "]]"), "ext": ("[https://x.y ", "]"), "T1": ("{{T1|", "}}"), "if": ("{{#if:1|", "}}"),
+              "uc": ("{{uc:", "}}"), "inv": ("{{#invoke:m|f|", "}}"), "dt": ("{{<nowiki/>t|", "}}"), "da": ("{{{<nowiki/>p|", "}}}"),
+              "dl": ("[<nowiki/>[a|", "]]"), "ad": ("{{{p|", "}}}"), "tsib": ("", "{{T1|s}}")}
+
+
+def atoms(s):
+    return ["SP" if ch == " " else "NL" if ch == "\n" else ch for ch in s]
+
+
+def expand_kwargs(o):
+    kw = {"expand_parserfns": o["pfn"], "expand_invoke": o["inv"]}
+    if o["sel"] != "all":
+        kw["pre_expand"] = True
+        kw["templates_to_expand"] = {"T1"} if o["sel"] == "T1" else None
+    return kw
+
+
+def opts_text(o):
+    return ", ".join(f"{k}={v!r}" for k, v in expand_kwargs(o).items() if (k, v) not in (("expand_parserfns", True), ("expand_invoke", True)))
+
+
+def tree_strings(node, acc):
+    if isinstance(node, str):
+        acc.append(node)
+        return
+    if getattr(node, "sarg", None):
+        acc.append(node.sarg)
+    for a in getattr(node, "largs", None) or []:
+        for x in a:
+            tree_strings(x, acc)
+    for k, v in (getattr(node, "attrs", None) or {}).items():
+        acc.append(str(k))
+        acc.append(str(v))
+    for ch in node.children:
+        tree_strings(ch, acc)
+
+
+def run_nested(chunk):
+    """items: (idx, {src, o, q, full}); full = also parse() and the text as a template body"""
+    common.use_repo()
+    res = []
+    with Scratch("c15n-") as d:
+        ctx = make_ctx(d)
+        try:
+            for idx, it in chunk:
+                src = it["src"]
+                calls = []
+
+                def tfn(name, ht):
+                    calls.append([name, ht.get(1)])
+                    return None
+
+                ob = {"idx": idx}
+                try:
+                    ctx.start_page("Pg")
+                    ob["out"] = ctx.expand(src, template_fn=tfn, **expand_kwargs(it["o"]))
+                    ob["calls"] = list(calls)
+                    if it.get("full"):
+                        ctx.start_page("Pg")
+                        acc = []
+                        tree_strings(ctx.parse(src), acc)
+                        ob["tleak"] = next((leak(x) for x in acc if leak(x)), None)
+                        ob["thas"] = sum(x.count(it["q"]) for x in acc)
+                        if "<!--" not in src and "-->" not in src:
+                            # (comment delimiters inside nowiki inside a template BODY: see judge_nowiki)
+                            ctx.add_page("Template:B", 10, body=src)
+                            ctx.start_page("Pg")
+                            ob["body_out"] = ctx.expand("{{B}}")
+                except Exception as e:  # noqa: BLE001
+                    ob["exc"] = repr(e)
+                res.append(ob)
+        finally:
+            ctx.db_conn.close()
+    return res
+
+
+TRACE_CFG = "SPECIFICATION TSpec\nINVARIANT Verdict\nCHECK_DEADLOCK FALSE\n"
+
+
+def tlc_judge(o, name, batch):
+    """Trace_Nowiki over recorded outputs -> {1-based index: {why, expected}} of the records not 'ok'"""
+    if not batch:
+        return {}
+    with Scratch("c15v-") as d:
+        tf = d / "b.json"
+        tf.write_text(json.dumps(batch))
+        rv = tlc("Trace_Nowiki", "t.cfg", cfg_text=TRACE_CFG, workers=1, env={"TRACE_FILE": str(tf)}, timeout=3000)
+    o.add_tlc(name, rv)
+    v = rv.tagged("VERDICT")[0]
+    if v["consumed"] != len(batch):
+        raise common.TLCError("trace validation incomplete")
+    bad = {b["i"]: b for b in v["bad"]}
+    if any(b["why"] == "input" for b in bad.values()):
+        raise common.TLCError("the harness wrote a nested input that is not the model's NInput (FRAME_TEXT out of step with Nowiki.tla)")
+    return bad
+
+
+def report_nested(o, rec, verdict, phase):
+    """rec: {fs, o, c(text), src, got, what}; verdict = Trace_Nowiki's {why, expected, q}"""
+    why, expected, q = verdict["why"], text(verdict["expected"]), text(verdict["q"])
+    ctxname = "/".join(rec["fs"]) + " (outermost first)"
+    call = f"expand({rec['src']!r}{', ' + opts_text(rec['o']) if opts_text(rec['o']) else ''})" if rec["what"] == "expand" else f"a template whose body is {rec['src']!r}"
+    case = {"context": ctxname, "options": rec["o"], "input": rec["src"], "payload": rec["c"], "got": rec["got"], "expected": expected, "phase": phase}
+    if why == "placeholder":
+        o.violation(case, f"{call} gives {rec['got']!r}: the internal placeholder character {leak(rec['got'])} is left in the output (a stored construct was written out and never resolved); "
+                          f"the nowiki content {rec['c']!r} must come out as {q!r}", cls=f"{phase}-placeholder")
+    elif why == "payload":
+        o.violation(case, f"{call} gives {rec['got']!r}: the nowiki content {rec['c']!r} must come out as {q!r}, which is not in the output", cls=f"{phase}-payload")
+    elif why == "frame":
+        o.note_drift({"nested_context": ctxname, "options": rec["o"], "input": rec["src"], "got": rec["got"], "model": expected, "what": rec["what"]})
+    else:
+        o.violation(case, f"{call} gives {rec['got']!r}; required {expected!r} ({why})", cls=f"{phase}-{why}")
+
+
+def nested_G(o, thorough):
+    r = tlc("Gen_Nowiki", "Gen_Nowiki_nested_T.cfg" if thorough else "Gen_Nowiki_nested_Q.cfg", workers=1, timeout=3000)
+    o.add_tlc("Gen_Nowiki[nested]", r)
+    flat = []
+    for c in r.cases:
+        for v in c["vars"]:
+            flat.append({"fs": c["fs"], "o": c["o"], "exact": c["exact"], "must": v["must"], "c": text(v["c"]), "q": text(v["q"]),
+                         "src": text(v["input"]), "exp": text(v["expanded"]), "full": c["o"] == DEFAULT_O})
+    del r
+    obs = pmap(run_nested, [(i, {"src": f["src"], "o": f["o"], "q": f["q"], "full": f["full"]}) for i, f in enumerate(flat)])
+    suspects = []
+    for ob in obs:
+        f = flat[ob["idx"]]
+        o.evaluations += 1
+        o.traces += 1
+        o.shape(("nest", "/".join(f["fs"]), json.dumps(f["o"], sort_keys=True), f["c"]))
+        case = {"context": "/".join(f["fs"]) + " (outermost first)", "options": f["o"], "input": f["src"], "payload": f["c"]}
+        if "exc" in ob:
+            o.violation({**case, "exception": ob["exc"]}, f"exception {ob['exc']} from {f['src']!r}", cls="nested-exception")
+            continue
+        for what, got in (("expand", ob["out"]), ("body", ob.get("body_out"))):
+            if got is None:
+                continue
+            if (f["exact"] and got != f["exp"]) or leak(got) or (f["must"] and f["q"] not in got):
+                suspects.append({"fs": f["fs"], "o": f["o"], "c": f["c"], "src": f["src"], "got": got, "what": what})
+        inside = [c for c in ob["calls"] if c[1] == "x" or c[0] != "T1"]
+        if inside:
+            o.violation({**case, "template_fn_calls": ob["calls"]}, f"template call(s) {inside!r} were made while expanding {f['src']!r}: something inside <nowiki> was expanded", cls="nested-expanded-inside")
+        if ob.get("tleak"):
+            o.violation({**case, "placeholder": ob["tleak"]}, f"parse({f['src']!r}): the internal placeholder character {ob['tleak']} is left in a string of the parse tree; the nowiki content must be a text node {f['q']!r}", cls="nested-parse-placeholder")
+        elif "thas" in ob and ob["thas"] == 0:
+            o.violation(case, f"parse({f['src']!r}): no text of the parse tree holds the nowiki content {f['q']!r}", cls="nested-parse-payload")
+        elif "thas" in ob and ob["thas"] > 1:
+            o.note_drift({"nested_context": case["context"], "input": f["src"], "parse": f"quoted payload found {ob['thas']} times in the tree"})
+    # every suspect is judged by TLC (Trace_Nowiki), the harness only pre-filters by equality
+    bad = tlc_judge(o, "Trace_Nowiki[nested suspects]", [{"k": "nest", "fs": s["fs"], "o": s["o"], "c": atoms(s["c"]), "out": tokenize(s["got"])} for s in suspects])
+    for i, s in enumerate(suspects, 1):
+        if i in bad:
+            report_nested(o, s, bad[i], "nested")
+    mid = flat[len(flat) // 3]
+    o.sample({"nested_context": "/".join(mid["fs"]), "options": mid["o"], "input": mid["src"], "expanded": mid["exp"]})
+    o.extra["nested"] = {"contexts_x_options": len({("/".join(f["fs"]), json.dumps(f["o"], sort_keys=True)) for f in flat}), "cases": len(flat),
+                         "not_predicted_exactly(ambiguous brackets)": sum(1 for f in flat if not f["exact"]),
+                         "payload_not_demanded(template-loop error)": sum(1 for f in flat if not f["must"]), "suspects_sent_to_TLC": len(suspects)}
+
+
+def nested_V_cases(rng, n, maxdepth, payload):
+    frames = [f for f in FRAME_TEXT if f != "uc"]
+    out = []
+    for _ in range(n):
+        depth = rng.randint(1, maxdepth)
+        fs = [rng.choice(frames) for _ in range(depth)]
+        if rng.random() < 0.15:
+            fs[-1] = "uc"
+        oo = {"pfn": rng.random() < 0.6, "inv": rng.random() < 0.6, "sel": rng.choice(["all", "all", "none", "T1"])}
+        if "inv" in fs and oo["pfn"] and oo["inv"]:
+            oo[rng.choice(["pfn", "inv"])] = False      # no Lua offline: #invoke is only met unexpanded
+        c = payload()
+        src = "<nowiki>" + c + "</nowiki>"
+        for f in reversed(fs):
+            src = FRAME_TEXT[f][0] + src + FRAME_TEXT[f][1]
+        out.append({"fs": fs, "o": oo, "c": c, "src": src})
+    return out
+
+
 def run(tier: str) -> int:
     o = Outcome(PID, tier)
-    o.rule = "every payload of <= N tokens over the 27-token alphabet x 5 embedding contexts is one case; every comment document one case; distinct by (context, payload)"
+    o.rule = ("every payload of <= N tokens over the 27-token alphabet x 5 embedding contexts is one case; every comment document one case; distinct by (context, payload); "
+              "nested: every sequence of <= Depth frames (12 kinds) x every setting of the options some frame looks at x 4 payloads (the deepest level one payload in quick) is one case, "
+              "distinct by (frames, options, payload)")
     o.assumptions = ["payloads are built from the wikitext token alphabet (no private-use characters of the placeholder range, as the package documents)",
-                     "comment payloads contain neither '-->' nor nowiki tags"]
+                     "comment payloads contain neither '-->' nor nowiki tags",
+                     "nested contexts: #invoke is only met unexpanded (expand_invoke or expand_parserfns off; no Lua offline); 'uc' only directly around the nowiki; "
+                     "where bracket runs are ambiguous wikitext (disabled link inside a link, external link closing into a link) only the statement's observables are checked, not the rendering of the frames"]
     thorough = tier == "thorough"
     r = tlc("Gen_Nowiki", "Gen_Nowiki_nowiki_3.cfg" if thorough else "Gen_Nowiki_nowiki_2.cfg", workers=1, timeout=3000)
     o.add_tlc("Gen_Nowiki[nowiki]", r)
@@ -199,11 +409,14 @@ def run(tier: str) -> int:
         case = {"written": ob["written"], "with_comments_deleted": ob["stripped"]}
         if "exc" in ob:
             o.violation({**case, "exception": ob["exc"]}, f"exception {ob['exc']}", cls="exception")
+        elif leak(ob["ew"]) or leak(ob["es"]):
+            o.violation({**case, "expand_written": ob["ew"], "expand_deleted": ob["es"]}, f"expand({ob['written']!r}) = {ob['ew']!r}: an internal placeholder character is left in the output", cls="comment-placeholder")
         elif ob["ew"] != ob["es"]:
             o.violation({**case, "expand_written": ob["ew"], "expand_deleted": ob["es"]}, f"expand({ob['written']!r}) = {ob['ew']!r} but with the comment deleted it is {ob['es']!r}", cls="comment-expand")
         elif ob["pw"] != ob["ps"]:
             o.violation({**case, "parse_written": str(ob["pw"])[:300], "parse_deleted": str(ob["ps"])[:300]}, f"parse trees of {ob['written']!r} with and without its comments differ", cls="comment-parse")
         o.shape(("comment", ob["written"]))
+    nested_G(o, thorough)
     o.exhaustive = True
     o.sample({"comment_document": text(ccases[7]["written"]), "stripped": text(ccases[7]["stripped"])})
     # V
@@ -235,22 +448,39 @@ def run(tier: str) -> int:
         npost = len(tokenize(text(post)))
         if toks[:npre] == tokenize(text(pre)) and toks[len(toks) - npost:] == tokenize(text(post)):
             toks = pre + toks[npre: len(toks) - npost] + post
-        batch.append({"ctx": c["ctx"], "c": c["c"], "out": toks})
-    with Scratch("c15v-") as d:
-        tf = d / "b.json"
-        tf.write_text(json.dumps(batch))
-        rv = tlc("Trace_Nowiki", "t.cfg", cfg_text="SPECIFICATION TSpec\nINVARIANT Verdict\nCHECK_DEADLOCK FALSE\n", workers=1, env={"TRACE_FILE": str(tf)}, timeout=3000)
-    o.add_tlc("Trace_Nowiki", rv)
-    v = rv.tagged("VERDICT")[0]
-    if v["consumed"] != len(batch):
-        raise common.TLCError("trace validation incomplete")
+        batch.append({"k": "ctx", "ctx": c["ctx"], "c": c["c"], "out": toks})
+    # V, nested: random deeper contexts, random options, the same long payloads
+    def payload():
+        while True:
+            c = "".join(rng.choice(alphabet) for _ in range(rng.randint(1, 12)))
+            if not re.search(r"(?i)</nowiki\s*>", c):
+                return c
+    ncases = nested_V_cases(rng, 2500 if thorough else 350, 5 if thorough else 4, payload)
+    nobs = pmap(run_nested, [(i, {"src": c["src"], "o": c["o"], "q": "", "full": False}) for i, c in enumerate(ncases)])
+    for ob in nobs:
+        c = ncases[ob["idx"]]
+        batch.append({"k": "nest", "fs": c["fs"], "o": c["o"], "c": atoms(c["c"]), "inp": atoms(c["src"]), "out": tokenize(ob.get("out", "EXC"))})
+    bad = tlc_judge(o, "Trace_Nowiki", batch)
     o.traces += len(batch)
     o.evaluations += len(batch)
-    for b in v["bad"]:
-        ob = obs[b["i"] - 1]
+    for i, b in sorted(bad.items()):
+        if i > len(obs):
+            ob = nobs[i - len(obs) - 1]
+            c = ncases[ob["idx"]]
+            report_nested(o, {**c, "got": ob.get("out", ob.get("exc")), "what": "expand"}, b, "V-nested")
+            continue
+        ob = obs[i - 1]
         c = vcases[ob["idx"]]
         o.violation({"context": c["ctx"], "input": ob["src"], "got": ob.get("out"), "expected": text(b["expected"]), "exception": ob.get("exc")},
-                    f"expand({ob['src']!r}) returned {ob.get('out')!r}; nowiki content must come out as {text(b['expected'])!r}", cls="V-" + c["ctx"])
+                    f"expand({ob['src']!r}) returned {ob.get('out')!r}; nowiki content must come out as {text(b['expected'])!r}"
+                    + (f" (internal placeholder character {leak(ob.get('out'))} left in the output)" if b["why"] == "placeholder" else ""), cls="V-" + c["ctx"])
+    for ob in nobs:
+        c = ncases[ob["idx"]]
+        o.shape(("nestV", "/".join(c["fs"]), json.dumps(c["o"], sort_keys=True)))
+        if "exc" in ob:
+            o.violation({"input": c["src"], "options": c["o"], "exception": ob["exc"]}, f"exception {ob['exc']} from {c['src']!r}", cls="V-nested-exception")
+        elif [x for x in ob["calls"] if x[0] != "T1" or x[1] in ("x", None)]:
+            o.violation({"input": c["src"], "options": c["o"], "template_fn_calls": ob["calls"]}, "something inside <nowiki> was expanded", cls="V-nested-expanded-inside")
     for ob in obs:
         if ob.get("calls") not in ([], ["T1"]):
             o.violation({"input": ob["src"], "template_fn_calls": ob.get("calls")}, "something inside <nowiki> was expanded", cls="V-expanded-inside")
@@ -264,11 +494,26 @@ def replay(path: str) -> int:
 
 
 def selftest() -> int:
-    batch = [{"ctx": "top", "c": ["[", "a"], "out": ["p", "&lsqb;", "a", "q"]}, {"ctx": "top", "c": ["[", "a"], "out": ["p", "[", "a", "q"]}]
-    with Scratch("c15s-") as d:
-        tf = d / "b.json"
-        tf.write_text(json.dumps(batch))
-        rv = tlc("Trace_Nowiki", "t.cfg", cfg_text="SPECIFICATION TSpec\nINVARIANT Verdict\nCHECK_DEADLOCK FALSE\n", workers=1, env={"TRACE_FILE": str(tf)})
-    bad = rv.tagged("VERDICT")[0]["bad"]
-    print("bad entries:", [b["i"] for b in bad])
-    return 0 if [b["i"] for b in bad] == [2] else 1
+    """corrupted recorded outputs must be rejected, each with the right verdict"""
+    fs = ["dt", "link"]                       # {{<nowiki/>t|[[a|<nowiki>c*</nowiki>]]}}
+    pre = tokenize("&lbrace;&lbrace;<nowiki />t&vert;[[a|")
+    post = tokenize("]]&rbrace;&rbrace;")
+    nest = {"k": "nest", "fs": fs, "o": DEFAULT_O, "c": ["c", "*"]}
+    batch = [{"k": "ctx", "ctx": "top", "c": ["[", "a"], "out": ["p", "&lsqb;", "a", "q"]},                       # 1 ok
+             {"k": "ctx", "ctx": "top", "c": ["[", "a"], "out": ["p", "[", "a", "q"]},                            # 2 mismatch
+             {**nest, "out": pre + ["c", "&ast;"] + post, "inp": atoms("{{<nowiki/>t|[[a|<nowiki>c*</nowiki>]]}}")},  # 3 ok
+             {**nest, "out": pre + ["CK"] + post},                                                               # 4 placeholder
+             {**nest, "out": pre + ["c", "*"] + post},                                                           # 5 payload not quoted
+             {**nest, "out": tokenize("{{<nowiki />t|[[a|") + ["c", "&ast;"] + tokenize("]]}}")},               # 6 frame drift only
+             {"k": "nest", "fs": ["T1", "da", "T1"], "o": DEFAULT_O, "c": ["c"], "out": ["(", "x", ")"]}]          # 7 loop error: payload not demanded
+    o = Outcome(PID, "selftest")
+    bad = tlc_judge(o, "Trace_Nowiki[selftest]", batch)
+    got = {i: b["why"] for i, b in bad.items()}
+    print("verdicts:", got)
+    try:
+        tlc_judge(o, "Trace_Nowiki[selftest]", [{**nest, "out": pre + ["c", "&ast;"] + post, "inp": atoms("{{<nowiki/>t|[[b|<nowiki>c*</nowiki>]]}}")}])
+        wrong_input_rejected = False
+    except common.TLCError:
+        wrong_input_rejected = True
+    print("wrong written input rejected:", wrong_input_rejected)
+    return 0 if got == {2: "mismatch", 4: "placeholder", 5: "payload", 6: "frame", 7: "frame"} and wrong_input_rejected else 1
